@@ -138,7 +138,13 @@ def gen_ace(w, cfg, platform):
     return spec
 
 
+GROUP_ORDER = ["G1", "G2", "SRV"]  # gen_member_sets nests them in this order
+
+
 def _narrow_addr(w, addr):
+    if addr[0] == "group" and addr[1] in GROUP_ORDER:
+        i = GROUP_ORDER.index(addr[1])
+        return ("group", GROUP_ORDER[max(0, i - 1)])
     if addr[0] == "any":
         return w.choice([("host", _base(w)), ("wild", _base(w) & 0xFFFFFF00, 0xFF)])
     if addr[0] == "wild":
@@ -170,6 +176,9 @@ def _widen_addr(w, addr):
         b = w.choice(low)
         nm = mask | (1 << b)
         return ("wild", base & ~nm & ALL32, nm)
+    if addr[0] == "group" and addr[1] in GROUP_ORDER:
+        i = GROUP_ORDER.index(addr[1])
+        return ("group", GROUP_ORDER[min(len(GROUP_ORDER) - 1, i + 1)])
     return ("any",) if addr[0] != "group" else addr
 
 
